@@ -2398,7 +2398,7 @@ namespace igris
             {
                 new (&_data[pos]) T(igris::move(other[pos]));
             }
-            other.m_size = 0;
+            other.clear();
             return *this;
         }
 
@@ -2522,6 +2522,10 @@ namespace igris
 
         void clear()
         {
+            for (igris::size_t pos = 0; pos < m_size; ++pos)
+            {
+                reinterpret_cast<T *>(&_data[pos])->~T();
+            }
             m_size = 0;
         }
     };
